@@ -46,22 +46,26 @@ def gen_class(rng):
         helper_in_base = via_helper and not in_base and nb > 0 and all(d in names[:nb] for d in deps) and rng.random() < 0.6
         vals.append(dict(id=k, deps=sorted(set(deps)), helper=via_helper, field=fld, discard=disc, style=style, base=in_base,
                          helper_in_base=helper_in_base))
-    return dict(fields=fields, validators=vals, nb=nb)
+    # a quarter of the classes without base are generic and deserialized through a specialisation (A[int])
+    return dict(fields=fields, validators=vals, nb=nb, generic=(nb == 0 and rng.random() < 0.25))
 
 
 def class_src(c):
-    L = ["from dataclasses import dataclass, field", "from apischema import validator, ValidationError, alias",
-         "LOG = []", "FAIL = set()", "CONSTRUCTED = []", ""]
+    L = ["from dataclasses import dataclass, field", "from typing import Generic, TypeVar",
+         "from apischema import validator, ValidationError, alias",
+         "LOG = []", "FAIL = set()", "CONSTRUCTED = []", "T = TypeVar('T')", ""]
 
     def emit_class(name, base, fields, validators, extra_helpers=()):
         L.append("@dataclass")
-        L.append(f"class {name}({base}):" if base else f"class {name}:")
+        gen = c.get("generic") and name == "A" and not base
+        L.append(f"class {name}({base}):" if base else (f"class {name}(Generic[T]):" if gen else f"class {name}:"))
         for f in fields:
             md = f"metadata=alias({f['alias']!r})" if f["alias"] != f["name"] else ""
+            ty = "T" if gen else "int"
             if f["required"]:
-                L.append(f"    {f['name']}: int" + (f" = field({md})" if md else " = field()"))
+                L.append(f"    {f['name']}: {ty}" + (f" = field({md})" if md else " = field()"))
             else:
-                L.append(f"    {f['name']}: int = field(default=0" + (", " + md if md else "") + ")")
+                L.append(f"    {f['name']}: {ty} = field(default=0" + (", " + md if md else "") + ")")
         for v in validators:
             args = []
             own = {f["name"] for f in fields}
@@ -142,28 +146,31 @@ def run(tier):
         except Exception as e:
             R.count("class_rejected:" + type(e).__name__)
             continue
-        A = mod.A
+        A = mod.A[int] if c.get("generic") else mod.A
         fields = c["fields"]
         vs = validators_in_order(c)
         states = list(itertools.product("avi", repeat=len(fields)))
         for st in (states if len(states) <= per else rng.sample(states, per)):
             failing = [v["id"] for v in vs if rng.random() < 0.4]
             data = {}
+            prefixed = rng.random() < 0.3          # a dynamic aliaser: keys and error locations go through it
+            al = (lambda x: "k_" + x) if prefixed else (lambda x: x)
+            kw = {"aliaser": al} if prefixed else {}
             for f, s in zip(fields, st):
                 if s == "v":
-                    data[f["alias"]] = rng.choice([1, 2, 50])
+                    data[al(f["alias"])] = rng.choice([1, 2, 50])
                 elif s == "i":
-                    data[f["alias"]] = "bad"
+                    data[al(f["alias"])] = "bad"
             provided = [f["name"] for f, s in zip(fields, st) if s == "v"]
             invalid = [f["name"] for f, s in zip(fields, st) if s == "i" or (s == "a" and f["required"])]
             mod.LOG.clear(); mod.CONSTRUCTED.clear(); mod.FAIL.clear(); mod.FAIL.update(failing)
             try:
-                obj = deserialize(A, data)
+                obj = deserialize(A, data, **kw)
                 outcome = ("ok", None)
             except ValidationError as e:
                 outcome = ("err", e.errors)
             except RecursionError:
-                R.violation("validation did not terminate (RecursionError)", dict(source=src, data=data, failing=failing))
+                R.violation("validation did not terminate (RecursionError)", dict(source=src, data=data, failing=failing, prefixed=prefixed))
                 continue
             except Exception as e:
                 R.violation(f"deserialize raised {type(e).__name__}: {e}", dict(source=src, data=data, failing=failing))
@@ -192,7 +199,7 @@ def run(tier):
                 for v in vs:
                     if v["id"] in log and v["id"] in failing:
                         # every error of the run, at its own path (under the field alias for a field validator)
-                        pre = [next(f["alias"] for f in fields if f["name"] == v["field"])] if v["field"] else []
+                        pre = [al(next(f["alias"] for f in fields if f["name"] == v["field"]))] if v["field"] else []
                         want = {"raise": [([], "")], "yield": [([], "")], "yield_path": [(["sub", 1], "")],
                                 "yield_many": [(["sub", 1], ""), (["sub", 1], " b"), (["sub", 2], " c"), ([], " d")]}[v["style"]]
                         for path, suffix in want:
@@ -202,10 +209,10 @@ def run(tier):
                                             dict(source=src, data=data, failing=failing, errors=outcome[1]))
                                 break
                     if v["id"] in log and v["id"] in failing and v["field"]:
-                        al = next(f["alias"] for f in fields if f["name"] == v["field"])
+                        fal = al(next(f["alias"] for f in fields if f["name"] == v["field"]))
                         locs = [e["loc"] for e in outcome[1] if e["err"] == f"v{v['id']} failed"]
-                        if not all(l[:1] == [al] for l in locs):
-                            R.violation(f"field validator v{v['id']} error not placed under the field alias {al!r}: {locs}",
+                        if not all(l[:1] == [fal] for l in locs):
+                            R.violation(f"field validator v{v['id']} error not placed under the field alias {fal!r}: {locs}",
                                         dict(source=src, data=data, failing=failing, errors=outcome[1]))
             vcoq = coq_list([f"(mkV {coq_nat(v['id'])} {coq_list(map(coq_str, v['deps']))} "
                              f"{coq_list(map(coq_str, v['discard'] if v['discard'] is not None else ([v['field']] if v['field'] else [])))})"
